@@ -96,7 +96,8 @@ def describe(tier):
 
 class Cfg(object):
     def __init__(self, name, element, make, model, pool, twin=None, model_fresh=None,
-                 kind="fc", peek=None, bufsize=1, watch=False):
+                 kind="fc", peek=None, bufsize=1, watch=False, sibling=None):
+        self.sibling = sibling
         self.name, self.element = name, element
         self.make, self.model = make, model
         self.twin = twin or make
@@ -117,10 +118,12 @@ def _configs():
     out = []
     add = lambda *a, **k: out.append(Cfg(*a, **k))
 
-    add("Count()", "Count", lambda: Count(), lambda: M.CountModel(), NUM, peek=lambda el: el.count)
+    add("Count()", "Count", lambda: Count(), lambda: M.CountModel(), NUM, peek=lambda el: el.count,
+        sibling=lambda: Count(name="sibling"))
     add("Count(name='n', count=3)", "Count", lambda: Count(name="n", count=3),
         lambda: M.CountModel("n", 3), NUM, twin=lambda: Count(name="n"),
-        model_fresh=lambda: M.CountModel("n", 0), peek=lambda el: el.count)
+        model_fresh=lambda: M.CountModel("n", 0), peek=lambda el: el.count,
+        sibling=lambda: Count(name="sibling", count=7))
     add("Sum()", "Sum", lambda: Sum(), lambda: M.SumModel(), NUM, peek=total)
     add("Sum(total=5)", "Sum", lambda: Sum(total=5), lambda: M.SumModel(5), NUM,
         twin=lambda: Sum(), model_fresh=lambda: M.SumModel(), peek=total)
@@ -201,6 +204,9 @@ def shards(tier):
     for c in CONFIGS:
         for k in range(len(c.events)):
             out.append({"config": c.name, "first": k})
+    for c in CONFIGS:
+        for k in range(len(c.events)):
+            out.append({"config": c.name, "first": k, "prelude": True})
     return out
 
 
@@ -283,9 +289,25 @@ def skey(x, seen=None, depth=0):
 # ---------------------------------------------------------------------------------------------------
 
 class State(object):
-    __slots__ = ("el", "twin", "model", "objs", "resets", "filled_before_reset", "alive")
+    __slots__ = ("el", "twin", "model", "objs", "resets", "filled_before_reset", "alive", "sibling")
 
-    def __init__(self, cfg):
+    def __init__(self, cfg, prelude=False):
+        if prelude:
+            # start from a non-initial state of the process: another instance of the same class has been
+            # computed before it was ever filled, then filled, computed and reset, and stays alive.
+            # Instances are independent: nothing of this may show in what *this* element yields.
+            sib = (cfg.sibling or cfg.make)()
+            self.sibling = sib
+            try:
+                if cfg.kind == "fc":
+                    list(sib.compute())
+                    sib.fill(copy.deepcopy(cfg.pool[-1]))
+                    list(sib.compute())
+                else:
+                    _block(sib, cfg.pool[-1])
+                sib.reset()
+            except Exception:  # noqa: what the sibling itself does is judged in its own histories
+                pass
         self.el = cfg.make()
         self.twin = None
         self.model = cfg.model()
@@ -409,10 +431,10 @@ def step(cfg, S, e):
     return viols, ("f", r[0]), False, False
 
 
-def run_history(cfg, hist):
+def run_history(cfg, hist, prelude=False):
     """Rebuild a fresh element and apply the whole history, judging every step.
     Returns (state, list of violations)."""
-    S = State(cfg)
+    S = State(cfg, prelude)
     allv = []
     for e in hist:
         if not S.alive:
@@ -425,7 +447,7 @@ def _ckey(cause):
     return tuple(sorted(cause.items()))
 
 
-def shrink(cfg, hist, cause):
+def shrink(cfg, hist, cause, prelude=False):
     """Greedy: drop single events while a violation with the same cause remains."""
     want = _ckey(cause)
     hist = list(hist)
@@ -434,12 +456,12 @@ def shrink(cfg, hist, cause):
         changed = False
         for i in range(len(hist)):
             cand = hist[:i] + hist[i + 1:]
-            _, vs = run_history(cfg, cand)
+            _, vs = run_history(cfg, cand, prelude)
             if any(_ckey(v[0]) == want for v in vs):
                 hist = cand
                 changed = True
                 break
-    _, vs = run_history(cfg, hist)
+    _, vs = run_history(cfg, hist, prelude)
     v = [v for v in vs if _ckey(v[0]) == want][0]
     return hist, v
 
@@ -459,7 +481,8 @@ def _readable(cfg, hist):
 def run_shard(p, tier):
     cfg = BY_NAME[p["config"]]
     first = cfg.events[p["first"]]
-    depth = DEPTH[tier]
+    prelude = bool(p.get("prelude"))
+    depth = DEPTH[tier] - (1 if prelude else 0)
     res = Result()
     seen = set()
     shrunk = set()
@@ -469,7 +492,7 @@ def run_shard(p, tier):
         for h in frontier:
             events = [first] if level == 1 else cfg.events
             for e in events:
-                S = State(cfg)
+                S = State(cfg, prelude)
                 for pe in h:
                     step(cfg, S, pe)
                 viols, outcome, nontrivial, observed = step(cfg, S, e)
@@ -489,8 +512,10 @@ def run_shard(p, tier):
                         res.violation({}, None, None, cause)    # counted; the first one is kept
                         continue
                     shrunk.add(ck)
-                    small, v = shrink(cfg, hist, cause)
-                    res.violation({"config": cfg.name, "history": small,
+                    small, v = shrink(cfg, hist, cause, prelude)
+                    if prelude:
+                        cause = dict(cause, after_sibling_activity=True)
+                    res.violation({"config": cfg.name, "history": small, "prelude": prelude,
                                    "readable": _readable(cfg, small)}, v[1], v[2], cause, v[3])
                 if S.alive:
                     k = S.key()
@@ -514,7 +539,7 @@ def replay(case):
     if cfg is None:
         raise ValueError("unknown configuration %r" % (case.get("config"),))
     res = Result()
-    _, vs = run_history(cfg, case["history"])
+    _, vs = run_history(cfg, case["history"], bool(case.get("prelude")))
     for cause, got, want, note in vs:
         res.violation(case, got, want, cause, note)
     return result_violations(res)
